@@ -110,26 +110,16 @@ Proof.
   intros HM. unfold getline_store. cbn [fst extent]. rewrite app_length, firstn_length. cbn [length]. lia.
 Qed.
 
-(* ---- the sites of the current source ----
-   Two sites of the unchanged tree do overrun their buffer (findings, see Properties_C11):
-   they are excluded BY NAME from the bound theorem and each has its own refutation. *)
-Definition finding_sites : list String.string :=
-  [ "global.cc:prompt_string:prompt"%string; "option.cc:find_option:buf"%string ].
-
-Definition is_finding (s : site) : bool :=
-  existsb (String.eqb (sname s)) finding_sites.
-
-Definition checked_sites : list site := filter (fun s => negb (is_finding s)) sites.
-
-Lemma checked_sites_ok : forallb site_ok checked_sites = true.
+(* ---- the sites of the current source ---- *)
+Lemma all_sites_ok : forallb site_ok sites = true.
 Proof. vm_compute. reflexivity. Qed.
 
 Lemma all_sites_in_bounds_proof :
-  Forall (fun s => forall n, 0 <= n -> extent (swrite s) n <= capacity s) checked_sites.
+  Forall (fun s => forall n, 0 <= n -> extent (swrite s) n <= capacity s) sites.
 Proof.
   apply Forall_forall. intros s Hs.
   apply site_ok_sound.
-  pose proof checked_sites_ok as H. rewrite forallb_forall in H. apply H. exact Hs.
+  pose proof all_sites_ok as H. rewrite forallb_forall in H. apply H. exact Hs.
 Qed.
 
 (* the nameless table the extracted driver uses is the same list *)
@@ -153,31 +143,16 @@ Lemma anchored_sites_present_proof :
       "item.cc:parse_tags:buf"; "token.cc:parse_ident:buf"; "token.cc:next:buf";
       "token.cc:parse_reserved_word:buf"; "times.cc:parse_date_mask_routine:buf";
       "times.cc:parse_datetime:buf"; "textual.cc:parse_post:buf";
-      "textual.cc:general_directive:buf"; "account.cc:find_account:buf";
-      "option.cc:find_option:buf" ]%string = true.
+      "textual.cc:general_directive:buf"; "option.cc:find_option:buf";
+      "global.cc:prompt_string:prompt" ]%string = true.
 Proof. vm_compute. reflexivity. Qed.
 
-(* ---- findings: the two sites that overrun ---- *)
-Lemma prompt_site_overruns :
-  exists s n, In s sites /\ sname s = "global.cc:prompt_string:prompt"%string /\
-              0 <= n /\ capacity s < extent (swrite s) n.
-Proof.
-  assert (H : exists s, find (fun s => String.eqb (sname s) "global.cc:prompt_string:prompt") sites = Some s /\
-                        (capacity s <? extent (swrite s) 31) = true).
-  { vm_compute. eexists. split; reflexivity. }
-  destruct H as [s [Hf Hlt]].
-  exists s, 31. apply find_some in Hf as [Hin Hname]. apply String.eqb_eq in Hname.
-  apply Z.ltb_lt in Hlt. repeat split; try assumption; lia.
-Qed.
-
-Lemma option_site_overruns :
-  exists s n, In s sites /\ sname s = "option.cc:find_option:buf"%string /\
-              0 <= n /\ capacity s < extent (swrite s) n.
-Proof.
-  assert (H : exists s, find (fun s => String.eqb (sname s) "option.cc:find_option:buf") sites = Some s /\
-                        (capacity s <? extent (swrite s) 127) = true).
-  { vm_compute. eexists. split; reflexivity. }
-  destruct H as [s [Hf Hlt]].
-  exists s, 127. apply find_some in Hf as [Hin Hname]. apply String.eqb_eq in Hname.
-  apply Z.ltb_lt in Hlt. repeat split; try assumption; lia.
-Qed.
+(* the two sites that overran before their repair (find_option let 127 characters into buf[128]
+   and appended 2 bytes: extent 129; prompt_string had no bound on the index) now have guarded
+   write kinds, and are covered by all_sites_in_bounds like every other site *)
+Lemma repaired_sites_proof :
+  map (fun s => (capacity s, swrite s))
+      (filter (fun s => String.eqb (sname s) "option.cc:find_option:buf" ||
+                        String.eqb (sname s) "global.cc:prompt_string:prompt") sites)
+  = [ (32, IndexLoopBounded 30 2); (128, CopyGuarded 126 2) ].
+Proof. vm_compute. reflexivity. Qed.
